@@ -58,7 +58,9 @@ func RunSoloScript(r sim.Src, mons []*sim.Mon, keepLog bool, sh SoloShape) *Solo
 	}
 	out := &SoloOut{Classes: map[string]int{}}
 	tm := &sim.Mon{Name: "timerlog",
-		TimerReset:  func(n *sim.Node, h uint32, v byte, d time.Duration) { out.Timer = append(out.Timer, fmt.Sprintf("reset(%d,%d,%s)", h, v, d)) },
+		TimerReset: func(n *sim.Node, h uint32, v byte, d time.Duration) {
+			out.Timer = append(out.Timer, fmt.Sprintf("reset(%d,%d,%s)", h, v, d))
+		},
 		TimerExtend: func(n *sim.Node, d time.Duration) { out.Timer = append(out.Timer, fmt.Sprintf("extend(%s)", d)) },
 	}
 	s := sim.NewSolo(cfg, r, self, false, append([]*sim.Mon{tm}, mons...), keepLog)
